@@ -8,7 +8,7 @@ from .. import core, harness, datadir, model, oracles, gen
 from ..chain import COINS, COIN_NAMES, Tx, TxIn, TxOut, Block, ZERO32
 from ..core import viol
 from ..gen import rbytes
-from ..ser import compact_size
+from ..ser import compact_size, sha256d
 
 RULE = ("namecoin/dogecoin chains whose blocks carry an AuxPoW section iff version >= activation version (0x10101 / 0x620102): sections with "
         "parent coinbase in legacy or segwit form and arbitrary shapes (0..many inputs/outputs/witness items, big scripts), both merkle "
@@ -31,10 +31,24 @@ def aux_section(rng, shape):
                         rng.getrandbits(32), wit))
     outs = [TxOut(rng.getrandbits(rng.choice([8, 40, 64])), rbytes(rng, rng.choice([0, 25, 35, shape.get("spklen", 25)]))) for _ in range(shape.get("nout", 2))]
     cbtx = Tx(rng.choice([1, 2, 0xFFFFFFFF]), ins, outs, rng.choice([0, rng.getrandbits(32)]), segwit=segwit)
+    def h32():
+        # none of the section's fields is validated by anyone: all-zero (what current Namecoin Core writes as parent hash), all-ones and
+        # repeated hashes are as legal as random ones
+        r = rng.random()
+        return rbytes(rng, 32) if r < 0.7 else (bytes(32) if r < 0.85 else (b"\xff" * 32 if r < 0.93 else bytes([rng.randrange(256)]) * 32))
     def branch(n):
-        return compact_size(n) + b"".join(rbytes(rng, 32) for _ in range(n)) + struct.pack("<I", rng.choice([0, 1, rng.getrandbits(32), 0xFFFFFFFF]))
-    parent = Block(rng.getrandbits(32), rbytes(rng, 32), rng.getrandbits(32), rng.getrandbits(32), rng.getrandbits(32), [], merkle=rbytes(rng, 32))
-    return cbtx.ser() + rbytes(rng, 32) + branch(shape["cb_branch"]) + branch(shape["chain_branch"]) + parent.header()
+        return compact_size(n) + b"".join(h32() for _ in range(n)) + struct.pack("<I", rng.choice([0, 1, rng.getrandbits(32), 0xFFFFFFFF]))
+    if rng.random() < 0.15:
+        parent_header = bytes(80) if rng.random() < 0.5 else b"\xff" * 80
+        parent_hash = h32()
+    else:
+        parent = Block(rng.getrandbits(32), h32(), rng.getrandbits(32), rng.getrandbits(32), rng.getrandbits(32), [], merkle=h32())
+        parent_header = parent.header()
+        r = rng.random()
+        parent_hash = parent.hash if r < 0.3 else (bytes(32) if r < 0.6 else h32())
+    kind = "zero" if parent_hash == bytes(32) else ("real" if parent_hash == sha256d(parent_header) else "other")
+    shape["parent_hash_kind"] = kind
+    return cbtx.ser() + parent_hash + branch(shape["cb_branch"]) + branch(shape["chain_branch"]) + parent_header
 
 
 def build(spec):
@@ -55,6 +69,7 @@ def build(spec):
                          chain_branch=rng.choice(spec["branch_lengths"]), siglen=rng.choice([0, 2, 100, 253, 1000]), spklen=rng.choice([0, 25, 300]))
             aux = aux_section(rng, shape)
             shapes.add("%s|%s|%s|cb%s|ch%s" % (coin, vclass, "segwit" if shape["segwit"] else "legacy", blen(shape["cb_branch"]), blen(shape["chain_branch"])))
+            shapes.add("%s|parent-hash-field:%s" % (coin, shape["parent_hash_kind"]))
         else:
             shapes.add("%s|%s|nosection" % (coin, vclass))
         txs = [cb.spend_tx(rng.randint(1, 2), outs=[cb.out(rng.choice(["p2pkh", "p2sh", "opreturn", "nonstd"])) for _ in range(rng.randint(1, 3))]) for _ in range(rng.randint(0, 3))]
